@@ -27,7 +27,7 @@ RULE = ("Generated: base portfolio P (contracts, takes, transports, storages, mu
 ASSUMPTIONS = ["windows, orders and take periods lie on step boundaries",
                "V compared with tolerance 4e-5*(1+|V|) (two interior-point solves)"]
 
-CLASSES = ["simple", "simple", "contract", "transport", "storage", "storage", "multi", "orderbook", "structured"]
+CLASSES = ["simple", "simple", "contract", "transport", "storage", "storage", "multi", "orderbook", "structured", "chp_minload", "plant"]
 
 
 def _outside(draw, T, where):
@@ -55,7 +55,7 @@ def _strategy(draw):
     extra = {"kind": kind, "where": where}
     if kind == "asset":
         cls = draw(st.sampled_from(["simple", "simple", "storage", "transport", "multi", "contract", "orderbook",
-                                    "scaled", "coarse", "plant", "chp"]))
+                                    "scaled", "coarse", "plant", "chp", "chp_minload"]))
         if cls == "coarse":
             a = gen.a_simple(draw, cx, "xe", allow_forms=False)
             if tl.uniform(g) and tl.freq_seconds(g["freq"]) is not None:
@@ -67,8 +67,8 @@ def _strategy(draw):
             a = gen.a_orderbook(draw, cx, "xe", n_max=3)
         elif cls == "plant":
             a = gen.a_plant(draw, cx, "xe", fuel=False)
-        elif cls == "chp":
-            a = gen.a_chp(draw, cx, "xe") if len(cx.nodes) >= 2 else gen.a_plant(draw, cx, "xe", fuel=False)
+        elif cls in ("chp", "chp_minload"):
+            a = (gen.draw_any(draw, cx, cls, "xe") if cls == "chp_minload" else gen.a_chp(draw, cx, "xe")) if len(cx.nodes) >= 2 else gen.a_plant(draw, cx, "xe", fuel=False)
             a["nodes"] = a["nodes"][:2]
             for k_ in ("fuel_efficiency", "consumption_if_on", "start_fuel"):
                 a.pop(k_, None)
@@ -245,6 +245,22 @@ def check(spec):
     sE = with_extra(spec)
     rP = obs.Run(sP)
     if is_err(rP.op):
+        # does the portfolio fail only because of where its assets' windows lie?  (same portfolio, all windows removed)
+        def nowin(a):
+            a = dict(a)
+            if a.get("type") != "orderbook":
+                a["start"] = a["end"] = None
+            if "assets" in a:
+                a["assets"] = [nowin(x) for x in a["assets"]]
+            if "base" in a:
+                a["base"] = nowin(a["base"])
+            return a
+        s0 = dict(sP, assets=[nowin(a) for a in sP["assets"]])
+        r0 = obs.Run(s0)
+        if not is_err(r0.op) and core.canon(s0) != core.canon(sP) and rP.op.kind in ("IndexError", "KeyError", "ValueError", "AttributeError", "TypeError") \
+                and not any(a.get("freq") or a.get("periodicity") or a.get("min_take") or a.get("max_take") for a in sP["assets"]):
+            return out.fail("set-up raises %s for this placement of the asset windows (%s); without windows the portfolio sets up"
+                            % (rP.op.short(), [(a["name"], a["type"], a.get("start"), a.get("end")) for a in sP["assets"] if a.get("start") is not None or a.get("end") is not None]))
         return out.drop("base_setup_error:" + rP.op.kind)
     rE = obs.Run(sE)
     if is_err(rE.op):
